@@ -330,5 +330,11 @@ func genScope(seed uint64, ncases int, out string) {
 		if r.Chance(1, 2) {
 			o.Line("gw", wire.Enc(wire.Pick(r, nss)))
 		}
+		// the generated xDS of one sidecar proxy of the mesh
+		lbl := "-"
+		if r.Chance(1, 3) {
+			lbl = "app=" + wire.Pick(r, []string{"a", "b"})
+		}
+		o.Line("xds", wire.Enc(wire.Pick(r, nss)), lbl)
 	}
 }
